@@ -1,8 +1,20 @@
 (* Single executable entry point of the extracted model: opcode :: payload. *)
-From GV Require Import Base.Prelude Lang.Location.
+From GV Require Import Base.Prelude Lang.Location Lang.Lexer.
 
 Definition nat_of (n : N) : nat := N.to_nat n.
 Definition of_nat (n : nat) : N := N.of_nat n.
+
+Definition enc_token (t : token) : list N :=
+  [tkind t; of_nat (tstart t); of_nat (tend t); of_nat (tline t); of_nat (tcol t);
+   (if thasval t then 1 else 0); of_nat (length (tvalue t))] ++ tvalue t.
+
+Definition enc_lex (o : outcome (list token)) : list N :=
+  match o with
+  | Ok ts => 0 :: of_nat (length ts) :: flat_map enc_token ts
+  | SyntaxErr p => [1; of_nat p]
+  | Crash w => [2; w]
+  | OutOfFuel => [3]
+  end.
 
 Definition run (inp : list N) : list N :=
   match inp with
@@ -15,5 +27,7 @@ Definition run (inp : list N) : list N :=
       end
   | 3 :: line :: ls :: pos :: s =>
       let '(l, c) := scan_lines (nat_of line) (nat_of ls) (nat_of pos) s in [of_nat l; of_nat c]
+  | 10 :: body => enc_lex (lex body)
+  | 11 :: body => enc_lex (coord_lex body)
   | _ => [999999]
   end.
